@@ -74,16 +74,20 @@ type GateDB struct {
 	GatedGets int64
 	SlowSleep time.Duration
 
-	failAt         int32 // > 0: the failAt-th traversal read from now on fails once (fault injection)
+	failAt         int32 // > 0: the failAt-th traversal read of a key in failKeys fails once (fault injection)
 	failSeen       int32
+	failKeys       map[string]struct{}
 	FaultsInjected int64
 }
 
 // ErrInjectedFault is what the one failing traversal read returns
 var ErrInjectedFault = fmt.Errorf("verif: injected read fault")
 
-// ArmFailOnce makes the n-th read (n >= 2: never the root) of the next snapshot traversal fail exactly once
-func (g *GateDB) ArmFailOnce(n int) {
+// ArmFailOnce makes the n-th traversal read of a key in keys (n >= 1) fail exactly once
+func (g *GateDB) ArmFailOnce(keys map[string]struct{}, n int) {
+	g.mu.Lock()
+	g.failKeys = keys
+	g.mu.Unlock()
 	atomic.StoreInt32(&g.failSeen, 0)
 	atomic.StoreInt32(&g.failAt, int32(n))
 }
@@ -140,9 +144,14 @@ func (g *GateDB) Get(key []byte) ([]byte, error) {
 			runtime.Gosched()
 			time.Sleep(g.SlowSleep)
 		}
-		if fa > 0 && atomic.AddInt32(&g.failSeen, 1) == fa && atomic.CompareAndSwapInt32(&g.failAt, fa, 0) {
-			atomic.AddInt64(&g.FaultsInjected, 1)
-			return nil, ErrInjectedFault
+		if fa > 0 {
+			g.mu.Lock()
+			_, target := g.failKeys[string(key)]
+			g.mu.Unlock()
+			if target && atomic.AddInt32(&g.failSeen, 1) == fa && atomic.CompareAndSwapInt32(&g.failAt, fa, 0) {
+				atomic.AddInt64(&g.FaultsInjected, 1)
+				return nil, ErrInjectedFault
+			}
 		}
 	}
 	return g.Raw.Get(key)
@@ -401,6 +410,23 @@ type Prim struct {
 	Addr    int
 	SetCode *string
 	Writes  [][2]string // key, value ("" deletes)
+	Failed  bool        // "rm" only: RemoveAccount returned an error and was reverted
+}
+
+// Replayable tells whether processing the identical block again is well-defined: a RemoveAccount that FAILED in the
+// first processing (account with uncommitted data-trie changes: removeDataTrie recreates the data trie from its new,
+// not yet committed root, which is not in the DB) can succeed the second time, because a rollback while pruning is
+// blocked leaves the nodes of the first processing in the DB. Such blocks are not re-processed.
+func (b *Block) Replayable() bool {
+	if b.Script == nil {
+		return false
+	}
+	for _, p := range b.Script {
+		if p.Kind == "rm" && p.Failed {
+			return false
+		}
+	}
+	return true
 }
 
 func cloneAccts(in map[string]*Acct) map[string]*Acct {
@@ -611,6 +637,7 @@ func (w *World) Commit(rng *vk.Rand, initial bool, restore *Block) (*Block, erro
 		m := nb[string(a)]
 		if !initial && !w.Monotone && m != nil && rng.Chance(1, 8) {
 			script = append(script, Prim{Kind: "rm", Addr: ai})
+			rmIdx := len(script) - 1
 			jl := adb.JournalLen()
 			if errR := adb.RemoveAccount(a); errR == nil {
 				delete(nb, string(a))
@@ -624,6 +651,7 @@ func (w *World) Commit(rng *vk.Rand, initial bool, restore *Block) (*Block, erro
 				if e2 := adb.RevertToSnapshot(jl); e2 != nil {
 					return nil, fmt.Errorf("revert after failed remove: %v (remove error %v)", e2, errR)
 				}
+				script[rmIdx].Failed = true
 				desc = append(desc, fmt.Sprintf("rm A%d failed+reverted", ai))
 				w.Counts["acct_remove_failed_reverted"]++
 			}
@@ -816,7 +844,11 @@ func (w *World) Recommit(orig *Block) (*Block, error) {
 		switch p.Kind {
 		case "rm":
 			jl := adb.JournalLen()
-			if errR := adb.RemoveAccount(a); errR == nil {
+			errR := adb.RemoveAccount(a)
+			if (errR != nil) != p.Failed {
+				return nil, fmt.Errorf("RemoveAccount(A%d) outcome differs from the first processing: failed then=%v, error now=%v", p.Addr, p.Failed, errR)
+			}
+			if errR == nil {
 				delete(nb, string(a))
 			} else if e2 := adb.RevertToSnapshot(jl); e2 != nil {
 				return nil, fmt.Errorf("revert after failed remove: %v (remove error %v)", e2, errR)
@@ -1188,6 +1220,31 @@ func TraverseRoot(db data.DBWriteCacher, b *Block, reach map[string]struct{}) *C
 		}
 	}
 	return nil
+}
+
+// MainTrieHashes returns the node hashes of the main trie of root (data tries excluded)
+func MainTrieHashes(db data.DBWriteCacher, root []byte) (map[string]struct{}, error) {
+	tsm, err := trie.NewTrieStorageManagerWithoutPruning(db)
+	if err != nil {
+		return nil, err
+	}
+	tr, err := trie.NewTrie(tsm, Msh, Hsh, 5)
+	if err != nil {
+		return nil, err
+	}
+	t2, err := tr.Recreate(root)
+	if err != nil {
+		return nil, err
+	}
+	hs, err := t2.GetAllHashes()
+	if err != nil {
+		return nil, err
+	}
+	out := make(map[string]struct{}, len(hs))
+	for _, h := range hs {
+		out[string(h)] = struct{}{}
+	}
+	return out, nil
 }
 
 // WaitUnblocked polls until pruning is not blocked; false when the (generous) wall-clock watchdog fires.
